@@ -344,7 +344,7 @@ func c05R4(c *Ctx, rule string) {
 	sites := c.P.CallsEverywhere(engine.Is("(*raftState).setCommitIndex"))
 	c.WhoMay(rule, "call (*raftState).setCommitIndex", sites, map[string]string{
 		"(*Raft).leaderLoop":               "value of the commitment tracker",
-		"(*Raft).appendEntries":            "min(leaderCommit, lastIndex), only upward",
+		"(*Raft).appendEntries":            "min(leaderCommit, last index the request covers), only upward",
 		"(*Raft).restoreFromCommittedLogs": "start-up, clamped to LastIndex() (C10.R5)",
 	})
 	if f := c.Field(rule, "raftState", "commitIndex"); f != nil {
@@ -356,12 +356,20 @@ func c05R4(c *Ctx, rule string) {
 		case "(*Raft).leaderLoop":
 			c.Check(rule, "leaderLoop:commit-value", c.P.InstrPos(s.Instr), "setCommitIndex(commitment.getCommitIndex())", a == "recv.leaderState.commitment.getCommitIndex()", "= "+a, 1)
 		case "(*Raft).appendEntries":
+			// Raft's follower rule: commit = min(leaderCommit, index of the last
+			// entry THIS REQUEST covered). The follower's own last index is no
+			// bound: what it holds beyond the request can be a stale suffix of
+			// an older term (defect F9: such a suffix was committed, applied, and
+			// the commit index then moved backwards). And the value itself –
+			// not just leaderCommit – must exceed the current commit index.
+			okB, whyB := followerCommitBound(c, s.Fn, engine.ArgValue(s.Instr, 0))
 			r := c.Run(&engine.Automaton{Fn: s.Fn, Tracks: []engine.Track{
-				engine.PredRel("up", "p2.LeaderCommitIndex", "recv.raftState.getCommitIndex()", engine.GT),
+				engine.PredRel("up", a, "recv.raftState.getCommitIndex()", engine.GT),
 			}})
-			c.RequireAt(r, rule, "appendEntries:commit-only-upward-and-clamped", s.Instr, "a.LeaderCommitIndex > getCommitIndex() ∧ value = min(a.LeaderCommitIndex, getLastIndex())", func(v engine.View) bool {
-				return v.T("up") && a == "min(p2.LeaderCommitIndex, recv.raftState.getLastIndex())"
+			c.RequireAt(r, rule, "appendEntries:commit-only-upward-and-clamped", s.Instr, "value = min(a.LeaderCommitIndex, last index covered by this request) ∧ value > getCommitIndex()", func(v engine.View) bool {
+				return v.T("up") && okB
 			})
+			c.Check(rule, "appendEntries:commit-bound-is-what-the-request-verified", c.P.InstrPos(s.Instr), "setCommitIndex(min(a.LeaderCommitIndex, a.Entries[last].Index when the request carries entries, else a.PrevLogEntry))", okB, whyB, 2)
 		}
 	}
 	// util.min / util.max mean what their names say
@@ -467,4 +475,61 @@ func c05R7(c *Ctx, rule string) {
 			c.RequireAt(r, rule, fmt.Sprintf("runLeader$defer:drops-commitCh#%d", i+1), ret, "every exit from leadership clears leaderState.commitCh", func(v engine.View) bool { return v.Seen("dropped") })
 		}
 	}
+}
+
+// followerCommitBound decides whether v is min(a.LeaderCommitIndex, B) with B
+// the last index the AppendEntries request covers: a phi of
+// a.Entries[len(a.Entries)-1].Index (chosen only under len(a.Entries) > 0) and
+// a.PrevLogEntry, or the arithmetic a.PrevLogEntry + len(a.Entries).
+func followerCommitBound(c *Ctx, fn *ssa.Function, v ssa.Value) (bool, string) {
+	call, ok := v.(*ssa.Call)
+	if !ok {
+		return false, "not a min(…) call: " + c.P.D(v)
+	}
+	n := c.P.CalleeName(call.Common())
+	if (n != "min" && n != "builtin:min") || len(call.Call.Args) != 2 {
+		return false, "not a min(a, b) call: " + c.P.D(v)
+	}
+	var bound ssa.Value
+	switch {
+	case c.P.D(call.Call.Args[0]) == "p2.LeaderCommitIndex":
+		bound = call.Call.Args[1]
+	case c.P.D(call.Call.Args[1]) == "p2.LeaderCommitIndex":
+		bound = call.Call.Args[0]
+	default:
+		return false, "a.LeaderCommitIndex is not an operand: " + c.P.D(v)
+	}
+	const prev, last = "p2.PrevLogEntry", "p2.Entries[(len(p2.Entries) - 1)].Index"
+	bd := c.P.D(bound)
+	if bd == "(p2.PrevLogEntry + len(p2.Entries))" || bd == "(len(p2.Entries) + p2.PrevLogEntry)" {
+		return true, "bound = " + bd
+	}
+	ph, ok := bound.(*ssa.Phi)
+	if !ok || len(ph.Edges) != 2 {
+		return false, "bound is " + bd + " – the follower's own last index (or anything else) does not say what this request verified"
+	}
+	r := c.Run(&engine.Automaton{Fn: fn, Tracks: []engine.Track{engine.PredRel("hasEntries", "len(p2.Entries)", "0", engine.GT)}})
+	seen := map[string]bool{}
+	for i, e := range ph.Edges {
+		d := c.P.D(e)
+		seen[d] = true
+		for _, st := range r.EdgeStates(ph.Block().Preds[i], ph.Block()) {
+			switch d {
+			case last:
+				if !st.T("hasEntries") {
+					return false, "a.Entries[last].Index chosen without len(a.Entries) > 0"
+				}
+			case prev:
+				if !st.F("hasEntries") {
+					return false, "a.PrevLogEntry chosen although the request carries entries"
+				}
+			default:
+				return false, "unexpected bound source " + d
+			}
+		}
+	}
+	if !seen[prev] || !seen[last] {
+		return false, "bound = " + bd
+	}
+	return true, "bound = " + bd
 }
